@@ -4,6 +4,7 @@ package main
 
 import (
 	"bytes"
+	"encoding/base64"
 	"encoding/json"
 	"flag"
 	"fmt"
@@ -202,11 +203,12 @@ type applyLog struct {
 	done map[string]int // command and delete-key entries whose Apply has returned
 	fwdD int            // key deletions handed to gossip by followers or enqueued by the leader without waiting
 	delKeys map[string][]string // database/key of every delete-key entry a node applied (diagnostics)
+	raw     map[string][][]byte // the log entries a node applied, in order
 	bad  []string       // an index applied out of order or twice
 }
 
 func newApplyLog() *applyLog {
-	return &applyLog{cmds: map[string]int{}, dels: map[string]int{}, last: map[string]uint64{}, done: map[string]int{}, delKeys: map[string][]string{}}
+	return &applyLog{cmds: map[string]int{}, dels: map[string]int{}, last: map[string]uint64{}, done: map[string]int{}, delKeys: map[string][]string{}, raw: map[string][][]byte{}}
 }
 
 func (a *applyLog) handle(name string, args ...any) {
@@ -254,6 +256,7 @@ func (a *applyLog) handle(name string, args ...any) {
 		a.bad = append(a.bad, fmt.Sprintf("%s applied index %d after %d", id, idx, a.last[id]))
 	}
 	a.last[id] = idx
+	a.raw[id] = append(a.raw[id], append([]byte{}, data...))
 	if req.Type == "delete-key" {
 		a.dels[id]++
 		a.delKeys[id] = append(a.delKeys[id], fmt.Sprintf("%d/%s", req.Database, req.Key))
@@ -937,8 +940,34 @@ func cmdRepl(args []string) {
 	}
 	if ok {
 		lead := c.Leader()
-		b, err := lead.DB.VerifRaftSnapshot(rr.t)
-		ev := map[string]any{"ev": "restore", "run": rr.run - 1, "src": lead.ID, "now": rr.t}
+		// raft takes a snapshot in two steps: Snapshot() on the state-machine goroutine, Persist() later while
+		// further entries are applied.  Two non-idempotent writes land in between; the fresh node restores the
+		// snapshot and then replays exactly those entries.
+		snapID, err := lead.DB.VerifRaftSnapshotBegin()
+		al.mu.Lock()
+		mark := len(al.raw[lead.ID])
+		al.mu.Unlock()
+		if err == nil {
+			for _, w := range []struct {
+				db  int
+				cmd []Tok
+			}{{0, []Tok{S("APPEND"), S("r0"), B("x")}}, {1, []Tok{S("APPEND"), S("r1"), B("y")}}} {
+				if ok && !rr.step(w.cmd, w.db, lead) {
+					ok = false
+				}
+			}
+		}
+		var b []byte
+		if err == nil {
+			b, err = lead.DB.VerifRaftSnapshotPersist(snapID, rr.t)
+		}
+		al.mu.Lock()
+		var later []string
+		for _, d := range al.raw[lead.ID][mark:] {
+			later = append(later, base64.StdEncoding.EncodeToString(d))
+		}
+		al.mu.Unlock()
+		ev := map[string]any{"ev": "restore", "run": rr.run - 1, "src": lead.ID, "now": rr.t, "replayed": len(later)}
 		if err != nil {
 			ev["err"] = err.Error()
 		} else {
@@ -946,8 +975,12 @@ func cmdRepl(args []string) {
 			snapFile := *out + ".snap"
 			resFile := *out + ".restored.json"
 			_ = os.WriteFile(snapFile, b, 0o644)
+			laterFile := *out + ".later.json"
+			lb, _ := json.Marshal(later)
+			_ = os.WriteFile(laterFile, lb, 0o644)
+			defer os.Remove(laterFile)
 			self, _ := os.Executable()
-			cmd := exec.Command(self, "replrestore", "-snap", snapFile, "-now", strconv.FormatInt(rr.t, 10), "-res", resFile)
+			cmd := exec.Command(self, "replrestore", "-snap", snapFile, "-later", laterFile, "-now", strconv.FormatInt(rr.t, 10), "-res", resFile)
 			var stderr bytes.Buffer
 			cmd.Stderr = &stderr
 			runErr := cmd.Run()
@@ -1009,6 +1042,7 @@ func cmdReplRestore(args []string) {
 	snap := fs.String("snap", "", "snapshot bytes")
 	now := fs.Int64("now", StartMs, "virtual time")
 	res := fs.String("res", "", "result file")
+	laterPath := fs.String("later", "", "log entries to replay after the restore (JSON array of base64)")
 	_ = fs.Parse(args)
 	quiet()
 	log.SetOutput(os.Stderr)
@@ -1025,6 +1059,23 @@ func cmdReplRestore(args []string) {
 	}
 	if err := fresh.DB.VerifRaftRestore(b); err != nil {
 		die(3, "restore: %v", err)
+	}
+	if *laterPath != "" {
+		var later []string
+		lb, err := os.ReadFile(*laterPath)
+		if err == nil {
+			err = json.Unmarshal(lb, &later)
+		}
+		if err != nil {
+			die(2, "later entries: %v", err)
+		}
+		for i, e := range later {
+			d, err := base64.StdEncoding.DecodeString(e)
+			if err != nil {
+				die(2, "later entry %d: %v", i, err)
+			}
+			fresh.DB.VerifRaftApply(uint64(1000+i), d)
+		}
 	}
 	writeJSON(*res, projState(Epoch{Base: EpochBase}, fresh.DB.VerifDump()))
 }
